@@ -20,6 +20,9 @@ func init() {
 }
 
 func c01(c *Ctx) {
+	c.ExpectAll("apply-tail/shm-change-counter-moves", c.fieldStores("litefs.(*DB).updateSHM", "litefs.walIndexHdr.change"), pat("(@@.change + 1)"), 1,
+		"every rewrite of the wal-index header increments its change counter (previous value + 1)",
+		"on a node without WAL frames the counter is the only header field that moves when the database file is rewritten at the same size: SQLite keeps its page cache while the header is unchanged - a snapshot ending at the TXID the replica already had would leave open connections reading the discarded pages")
 	c.pageLoopsComplete("complete", "ApplyLTXNoLock", "WriteSnapshotTo")
 	c.clientStatusFamily("stream/client", "Stream")
 	{
